@@ -26,10 +26,15 @@ def _dtypes_for(b):
 
 
 def shards(tier):
-    out = [{"b": b} for b in STRIDES]
-    out += [{"all": [1, 10 if tier == "quick" else 12]}, {"all": [2, 5 if tier == "quick" else 6]}]
-    if tier != "quick":
-        out.append({"all": [4, 3]})
+    out = [{"b": b, "dt": dt} for b in STRIDES for dt in _dtypes_for(b)]
+    alls = [[1, 10 if tier == "quick" else 12], [2, 5 if tier == "quick" else 6]] + ([[4, 3]] if tier != "quick" else [])
+    for b, L in alls:
+        for n in range(L + 1):
+            if 2 ** (b * n) > 512:
+                for first in range(2 ** b):
+                    out.append({"all": [b, n], "first": first})
+            else:
+                out.append({"all": [b, n]})
     return out
 
 
@@ -42,16 +47,16 @@ def _lengths(b, tier):
 
 def cases(shard, tier):
     if "all" in shard:
-        b, L = shard["all"]
-        for n in range(0, L + 1):
-            for t in itertools.product(range(2 ** b), repeat=n):
-                yield [b, n, "uint8", ["lit", list(t)]]
+        b, n = shard["all"]
+        for t in itertools.product(range(2 ** b), repeat=n):
+            if "first" in shard and t[0] != shard["first"]:
+                continue
+            yield [b, n, "uint8", ["lit", list(t)]]
         return
-    b = shard["b"]
+    b, dt = shard["b"], shard["dt"]
     for n in _lengths(b, tier):
-        for dt in _dtypes_for(b):
-            for pat in ("zeros", "max", "alt", "prog"):
-                yield [b, n, dt, pat]
+        for pat in ("zeros", "max", "alt", "prog"):
+            yield [b, n, dt, pat]
 
 
 def _content(b, n, pat):
